@@ -737,7 +737,8 @@ pub fn kinds_for(target: Target) -> Vec<DocSpec> {
             d("type-early", "[x, 2]\n"),
             d("anchor-then-type-error", "[&x 7, oops]\n"),
         ],
-        Target::Map => vec![
+        Target::Map | Target::RcMap => vec![
+            d("anchors-b", "k: &x other\nj: *x\nm: &z third\n"),
             d("valid-a", "k1: v1\nk2: v2\n"),
             d("valid-b", "{a: b}\n"),
             d("anchors", "k: &x val\nj: *x\n"),
@@ -797,7 +798,7 @@ pub fn kinds_for(target: Target) -> Vec<DocSpec> {
     v
 }
 
-pub const TARGETS: [Target; 7] = [Target::Cfg, Target::VecI, Target::Tup, Target::Map, Target::En, Target::Json, Target::Str];
+pub const TARGETS: [Target; 8] = [Target::Cfg, Target::VecI, Target::Tup, Target::Map, Target::En, Target::Json, Target::Str, Target::RcMap];
 
 pub fn total(tier: Tier) -> u64 {
     match tier {
